@@ -70,6 +70,21 @@ impl Backend for Typescript {
             let (pdus, warnings): (String, Vec<CompilerError>) =
                 tlds.into_iter()
                     .fold((String::new(), vec![]), |mut acc, tld| {
+                        #[cfg(feature = "verif-hooks")]
+                        {
+                            crate::verif::point("gen:tld");
+                            if crate::verif::buggify("generate", tld.name()) {
+                                acc.1.push(
+                                    GeneratorError::new(
+                                        Some(tld),
+                                        "verif-hooks: injected generator failure",
+                                        GeneratorErrorType::Unidentified,
+                                    )
+                                    .into(),
+                                );
+                                return acc;
+                            }
+                        }
                         match self.generate(tld) {
                             Ok(s) => {
                                 acc.0.push('\n');
